@@ -73,7 +73,9 @@ class WrapperSampler(SimpleSampler):
         self.underlying = underlying
 
     def rvs(self, size: int=1):
-        return self.underlying.rvs(size)
+        # by keyword: the positional arguments of an unfrozen distribution's
+        # rvs are its shape/location parameters
+        return self.underlying.rvs(size=size)
 
     def mean(self) -> float:
         """Get mean of underlying distribution"""
